@@ -41,7 +41,7 @@ def gen_cases(tier, seed):
     cases = []
     for i in range(n):
         style = STYLES[i % len(STYLES)]
-        limit = rng.choice((1, 2, 3, 5)) if style != 'each-depth' else rng.choice((3, 5))
+        limit = rng.choice((1, 2, 3, 5, 8, 12)) if style != 'each-depth' else rng.choice((3, 5, 8))
         fk = rng.choice(FLUSH_KINDS)
         crng = random.Random(rng.randrange(1 << 30))
         cases.append({
@@ -71,7 +71,7 @@ def run(tier, seed, replay=None):
         rep.absorb(run_cases(index_child, gen_cases(tier, seed), watchdog=300 if tier == 'quick' else 900), 'history')
     c = rep.counters
     floors = {'index_comparisons': 150, 'reorg_ranges': 80, 'history_backups': 100, 'reorg_depth_1': 5, 'reorg_depth_2': 5,
-              'reorg_depth_3': 5, 'reorg_depth_5': 2, 'ev_fork_midbatch': 8, 'forced_reorgs': 10, 'fork_equal_or_shorter': 5,
+              'reorg_depth_3': 5, 'reorg_depth_5': 2, 'reorg_depth_6_or_more': 4, 'ev_fork_midbatch': 8, 'forced_reorgs': 10, 'fork_equal_or_shorter': 5,
               'reorg_range_doubling_branch': 2, 'fresh_index_differentials': 20, 'feat_remined_tx': 10,
               'histories_with_txnum_above_255': 20}
     if not replay:
